@@ -178,17 +178,11 @@ Theorem base64_occurrence_is_genuine : forall a x t y pre post d,
 Proof. exact b64_occurrence_genuine. Qed.
 Print Assumptions base64_occurrence_is_genuine.
 
-(* split_at_large_gaps (model of re/hir.rs, threshold from the source) keeps the
-   language, unless the pattern ends with a jump over the threshold: then the
-   trailing jump is lost (refuted, witness /abc.{5,300}/s on "abc") *)
-Theorem split_at_large_gaps_preserves_language : forall nc d items,
-  items <> [] -> ends_with_big_gap items = false ->
-  forall i j, M nc d (join_chain (split_at_large_gaps items)) i j <-> M nc d (rcat items) i j.
+(* split_at_large_gaps (model of re/hir.rs; threshold, minimum piece length and
+   the shape of the `chunks.is_empty()` branch read from the source) keeps the
+   language of the pattern, for every list of items; a pattern that ends with
+   a jump over the threshold keeps that jump in its last piece *)
+Theorem split_at_large_gaps_preserves_language : forall nc d items i j,
+  M nc d (join_chain (split_at_large_gaps items)) i j <-> M nc d (rcat items) i j.
 Proof. exact split_preserves_language. Qed.
 Print Assumptions split_at_large_gaps_preserves_language.
-
-Theorem split_at_large_gaps_trailing_gap_refuted :
-  exists nc d items i j,
-    M nc d (join_chain (split_at_large_gaps items)) i j /\ ~ M nc d (rcat items) i j.
-Proof. exact split_preserves_language_refuted. Qed.
-Print Assumptions split_at_large_gaps_trailing_gap_refuted.
